@@ -120,8 +120,7 @@ bool drive_real(P& p, const Env& e, uint32_t fseed, Out& o, Result& res, const c
 }
 
 // 10%..90% transition time of seq (from index `from`) between its first value and `target`; -1 if not measurable
-int64_t t10_90(const std::vector<double>& g, size_t from, double target) {
-    const double g0 = g[from];
+int64_t t10_90(const std::vector<double>& g, size_t from, double target, double g0) {
     const double d = target - g0;
     int64_t n10 = -1;
     int64_t n90 = -1;
@@ -225,19 +224,22 @@ void check_static_curve(Mk make_zero_time, double T, double W, double inv_ratio,
 }
 
 // smoothing oracles on the quiet period, in the domain the processor smooths in (`dom`: dB or linear gain)
+// `initial`: the documented state of a fresh processor (0 dB / closed gate), used when the quiet period starts the stream.
+// The transition is measured from the state BEFORE the quiet period, so a gain that jumps to its target on the very first
+// quiet sample is seen as a transition of zero length, not as "nothing to measure".
 void check_settling(const std::vector<double>& dom, size_t q0, double target, double t_attack_smp, double t_release_smp, int64_t hold_smp, double settle_tol, double min_step,
-                    Result& res, const char* name, const std::string& cfg) {
+                    Result& res, const char* name, const std::string& cfg, double initial) {
     const size_t n = dom.size();
-    const double g0 = dom[q0];
+    const double g0 = (q0 > 0) ? dom[q0 - 1] : initial;
     const bool falling = target < g0;
     // monotone approach, no overshoot
-    for (size_t i = q0; i + 1 < n; ++i) {
-        const double e0 = dom[i] - target;
-        const double e1 = dom[i + 1] - target;
+    for (size_t i = q0; i < n; ++i) {
+        const double e0 = ((i == q0) ? g0 : dom[i - 1]) - target;
+        const double e1 = dom[i] - target;
         const bool ok = falling ? (e1 <= e0 + 1e-12 && e1 >= -1e-9) : (e1 >= e0 - 1e-12 && e1 <= 1e-9);
         if (!ok) {
             res.fail(std::string("C20:not-monotone:") + name, fmt("%s %s: smoothed gain moves away from / past its target %.9g at quiet sample %zu: %.12g -> %.12g", name, cfg.c_str(), target,
-                                                                 i - q0, dom[i], dom[i + 1]));
+                                                                 i - q0, e0 + target, dom[i]));
             return;
         }
     }
@@ -252,7 +254,7 @@ void check_settling(const std::vector<double>& dom, size_t q0, double target, do
         }
         res.inc("probe.settled_checked");
         if (std::fabs(target - g0) >= min_step) {
-            const int64_t t = t10_90(dom, q0, target);
+            const int64_t t = t10_90(dom, q0, target, g0);
             const double tol = 0.1 * tsmp + 2;
             if (t < 0 || std::fabs(double(t) - tsmp) > tol) {
                 res.fail(std::string("C20:time-constant:") + name,
@@ -377,11 +379,11 @@ void run_dyn(const Op& op, Result& res) {
         for (size_t i = 0; i < n; ++i) {
             gdb[i] = todb(o.gain[i]);
         }
-        check_settling(gdb, q0, target_db, ta * fs, tr * fs, 0, 1e-6, 0.5, res, name, cfg);
+        check_settling(gdb, q0, target_db, ta * fs, tr * fs, 0, 1e-6, 0.5, res, name, cfg, 0.0);
     } else {
         const double target = (A >= lin(T)) ? 1.0 : 0.0;
         const int64_t hs = int64_t(std::floor(hold * fs));
-        check_settling(o.gain, q0, target, ta * fs, tr * fs, (target == 0.0) ? hs : 0, 1e-6, 0.05, res, name, cfg);
+        check_settling(o.gain, q0, target, ta * fs, tr * fs, (target == 0.0) ? hs : 0, 1e-6, 0.05, res, name, cfg, 0.0);
         res.inc("probe.gate_hold_then_close", target == 0.0 && hs > 0 && o.gain[q0] > 0.5);
     }
     res.inc("probe.level_step_inside_knee", env.steps_in_knee > 0);
